@@ -513,9 +513,15 @@ fn one_case(d: &mut Draw) -> Outcome {
         match c19::gate_vs_rtl(m2, &case, &case.stim, &rtl) {
             c19::GateRun::Broken(sig) => return fail(format!("{what}:{sig}"), "the netlist cannot be simulated".into()),
             c19::GateRun::Done(Some(mm), _) => {
-                let known = case.design.as_ref().map(|dsg| crate::synth_findings::design_hits(dsg)).unwrap_or_default();
-                if what == "feature-on-netlist" && !known.is_empty() {
-                    return Outcome::skip("netlist differs from RTL on a design with the trigger shape of a C19 known finding");
+                if what == "feature-on-netlist" {
+                    // the same re-examination as C19 (reference evaluator, minimisation, known shapes)
+                    return match c19::explain(&case, g, mm) {
+                        Outcome::Fail(f) if !f.signature.starts_with("unclassified") && !f.signature.starts_with("ram-inference-changes-behaviour") => {
+                            Outcome::skip(format!("netlist differs from RTL for a reason C19 lists ({})", f.signature))
+                        }
+                        Outcome::Fail(f) => Outcome::fail(format!("feature-on-netlist:{}", f.signature), f.message, f.input),
+                        o => o,
+                    };
                 }
                 return fail(
                     format!("{what}:differs-from-rtl"),
